@@ -703,7 +703,8 @@ int mpq_EGlpNumReadStrXc (mpq_t var,
 	char c = 0;
 	int l_exp = 0,
 	  sgn = 0,
-	  exp_sgn = 0;
+	  exp_sgn = 0,
+	  bad_exp = 0;
 	int n_char = 0,
 	  n_dig = 0,
 	  cn = 0;
@@ -750,7 +751,12 @@ int mpq_EGlpNumReadStrXc (mpq_t var,
 			 * exponent */
 			else
 			{
-				l_exp = 10 * l_exp + c - '0';
+				/* an exponent of ten and more digits cannot be expanded anyway;
+				 * keep the accumulator from overflowing and refuse the number below */
+				if (l_exp > 99999999)
+					bad_exp = 1;
+				else
+					l_exp = 10 * l_exp + c - '0';
 				a_exp_sgn = 0;
 			}
 			a_sgn = 0;
@@ -778,6 +784,8 @@ int mpq_EGlpNumReadStrXc (mpq_t var,
 			a_exp_sgn = 1;
 			break;
 		case '/':
+			if (bad_exp)
+				l_exp = 0;
 			if (exp_sgn)
 				l_exp = -l_exp;
 			if (l_exp > 0)
@@ -808,6 +816,8 @@ int mpq_EGlpNumReadStrXc (mpq_t var,
 		/* advance the reading character */
 		c = str[++n_char];
 	}
+	if (bad_exp)
+		n_char = 0;
 	if (n_char)
 	{
 		/* now expand the exponent of the denominator */
